@@ -1918,6 +1918,14 @@ fn verify_nsec(
     let query_name_is_ent =
         is_strict_descendant(covering_nsec_data.next_domain_name(), &query.name);
 
+    // A no data response for an empty non-terminal (RFC 4592 section 2.2.2, RFC 4035 section
+    // 3.1.3.2): the name exists, because a name below it does, and it owns no records, because it
+    // lies strictly between the owner and the next name of the covering record. No wildcard can
+    // apply to a name that exists, so nothing else has to be proven.
+    if query_name_is_ent && response_code == ResponseCode::NoError && !have_answer {
+        return nsec1_yield(Proof::Secure, "no data for an empty non-terminal");
+    }
+
     // Identify the names that exist (including names of empty non terminals) that are parents of
     // the query name. Pick the longest such name, because wildcard synthesis would start looking
     // for a wildcard record there.
